@@ -22,7 +22,9 @@ use serde_json::{Value, json};
 use std::cell::RefCell;
 use std::collections::BTreeMap;
 
-const CONFIGS: [&str; 2] = ["all-rules-on/American/uncached", "curated-defaults/American/cached"];
+const CONFIGS: [&str; 3] = ["all-rules-on/American/uncached", "curated-defaults/American/cached", "curated-defaults/American/fresh-group-per-lint"];
+/// one unknown word in two letter cases
+const CASE_TYPOS: &[(&str, &str)] = &[("teh", "Teh"), ("wrod", "WROD"), ("recieve", "Recieve"), ("mispelled", "MISPELLED"), ("thier", "Thier"), ("becuase", "BecuaSe"), ("zqxv", "Zqxv")];
 const QUOTES: [char; 3] = ['"', '“', '”'];
 
 struct Groups {
@@ -74,7 +76,13 @@ fn lint_text(cfg: usize, text: &str) -> Result<Vec<Lint>, String> {
         let dict = FstDictionary::curated();
         let doc = Document::new(text, &PlainEnglish, &dict);
         with_groups(|g| {
-            if cfg == 0 {
+            if cfg == 2 {
+                // a brand-new group for this one lint: no per-linter memo (SpellCheck's word cache,
+                // the chunk cache) has seen any other text
+                let mut fresh = LintGroup::new_curated(FstDictionary::curated(), Dialect::American);
+                fresh.config.fill_with_curated();
+                fresh.lint(&doc)
+            } else if cfg == 0 {
                 // a fresh dummy key changes the config hash: no chunk-cache hit from another context
                 g.all.config.unset_rule_enabled(format!("zz-c12-nonce-{}", g.nonce));
                 g.nonce += 1;
@@ -188,7 +196,7 @@ fn has_at_lookahead(p: &str, d: &str, tp: &[Token], tw: &[Token]) -> bool {
             || tw.iter().any(|t| t.span.start < plen && matches!(t.kind, TokenKind::EmailAddress | TokenKind::Url)))
 }
 
-pub fn eval_pair(p: &str, d: &str, with_k: bool, only_cfg: Option<usize>) -> PairOut {
+pub fn eval_pair(p: &str, d: &str, with_k: bool, only_cfg: Option<usize>, fresh: bool) -> PairOut {
     let mut out = PairOut { k: vec![], counts: vec![], monitors: vec![], fails: vec![], nontrivial: false };
     let whole = format!("{}{}", p, d);
     let plen = p.chars().count();
@@ -314,7 +322,7 @@ pub fn eval_pair(p: &str, d: &str, with_k: bool, only_cfg: Option<usize>) -> Pai
     }
     // ---- the property on the real rule set ------------------------------------------------------
     for cfg in 0..CONFIGS.len() {
-        if only_cfg.is_some_and(|c| c != cfg) {
+        if only_cfg.is_some_and(|c| c != cfg) || (cfg == 2 && !fresh && only_cfg != Some(2)) {
             continue;
         }
         // the whole first, so that a caching group cannot have seen the parts alone before
@@ -334,7 +342,11 @@ pub fn eval_pair(p: &str, d: &str, with_k: bool, only_cfg: Option<usize>) -> Pai
                 (if at { "c12-lex-at-lookahead".to_string() } else { "c12-tokens-differ".to_string() }, vec![])
             } else {
                 let rules = responsible_rules(p, d);
-                let class = if what == "order" && rules.is_empty() {
+                let class = if cfg == 2 && rules.is_empty() {
+                    // reproduced only with a fresh group per lint: state carried inside a linter from
+                    // the first paragraph to the second
+                    "c12-linter-memo-across-paragraphs".to_string()
+                } else if what == "order" && rules.is_empty() {
                     "c12-order".to_string()
                 } else if rules.is_empty() {
                     "c12-unidentified".to_string()
@@ -395,7 +407,7 @@ pub fn run(ctx: &Ctx) {
         let p = v["P"].as_str().unwrap_or("").to_string();
         let d = v["D"].as_str().unwrap_or("").to_string();
         let cfg = v["cfg"].as_str().and_then(|c| CONFIGS.iter().position(|x| *x == c));
-        let o = eval_pair(&p, &d, true, cfg);
+        let o = eval_pair(&p, &d, true, cfg, cfg == Some(2));
         merge(&mut sess, o, "replay");
         sess.nontrivial("replay-a");
         sess.nontrivial("replay-b");
@@ -432,6 +444,14 @@ pub fn run(ctx: &Ctx) {
         ("This is fine. \t \n\n", " \tfoo bar."), ("This is fine. \n\n", " \tfoo bar."), ("This is fine. \t\n\n", " foo bar."), ("This is fine. \t \t\n\n", " \tfoo bar."),
     ] {
         pairs.push((p.to_string(), d.to_string()));
+    }
+    // the same unknown word in both paragraphs in different letter case (a per-document memo keyed
+    // by a normalised word makes the second paragraph's suggestions depend on the first)
+    for (a, b) in CASE_TYPOS {
+        for (x, y) in [(a, b), (b, a), (a, a)] {
+            pairs.push((format!("I saw {} cat here.\n\n", x), format!("{} dog barked at {}.", y, x)));
+            pairs.push((format!("{} is wrong.\n\n", x), format!("So is {} again.", y)));
+        }
     }
     let n_corpus = pairs.len();
     // 2. small scope: every separator × every curated opening of D, on a fixed first paragraph
@@ -485,16 +505,24 @@ pub fn run(ctx: &Ctx) {
                 out.extend(cs[at..].iter());
                 out
             };
-            let a = *rng.pick(&items);
-            let b = if rng.chance(1, 2) { a } else { *rng.pick(&items) };
+            let (a, b) = if i % 9 == 3 {
+                let (x, y) = *rng.pick(CASE_TYPOS);
+                if rng.chance(1, 2) { (x, y) } else { (y, x) }
+            } else {
+                let a = *rng.pick(&items);
+                (a, if rng.chance(1, 2) { a } else { *rng.pick(&items) })
+            };
             (inject(&mut rng, &p, a), inject(&mut rng, &d, b))
         } else {
             (p, d)
         };
         pairs.push((p, d));
     }
+    // a fresh group per lint is costly: the corpus, and a slice of the random pairs (the ones with the
+    // same construct / the same unknown word injected in both paragraphs fall on i % 9 == 3)
+    let fresh_every = if ctx.tier == Tier::Thorough { 9 } else { 45 };
     let with_k_every = if ctx.tier == Tier::Thorough { 1 } else { 1 };
-    let outs = par_map(pairs.len(), 16, |i| eval_pair(&pairs[i].0, &pairs[i].1, i % with_k_every == 0, None));
+    let outs = par_map(pairs.len(), 16, |i| eval_pair(&pairs[i].0, &pairs[i].1, i % with_k_every == 0, None, i < n_corpus || i % fresh_every == 3));
     for (i, o) in outs.into_iter().enumerate() {
         if i == n_corpus || i == n_small || i == n_small + 1 {
             sess.sample(json!({"P": trunc(&pairs[i].0, 160), "D": trunc(&pairs[i].1, 160)}));
